@@ -21,6 +21,7 @@ Definition pkt_eqb (p q : pkt) : bool :=
          | _, _ => false
          end) o o'
   | PError c, PError c' => (c =? c')%N
+  | PMalformed r, PMalformed r' => str_eqb r r'
   | _, _ => false
   end.
 
